@@ -36,11 +36,12 @@ inductive Check where
   -- phase 3: end of GlobalHierarchicalModel.__init__
   | emptyModel | firstConditional
   -- GlobalHierarchicalModel.fit
-  | fitLength | missingMethod | dataDim
+  | fitLength | missingMethod | dataScalar | dataDim | dataFlat
   | unknownReference | referenceType | tooFewIntervals | noIntervalPpi | noInterval
   | methodType | unknownMethod | lsqUnsupported | unknownWeights | weightsType | weightsNonFinite
   -- HighestDensityContour
   | limitsLength | limitSubscript | limitIndex | deltasLength | limitTuple | deltaStep | deltaNegative
+  | limitEntry | limitNonFinite | nanDensity
   -- IntervalSlicer.__init__
   | unknownKwarg
   -- pdf / cdf
@@ -55,6 +56,7 @@ def Check.kind : Check → ErrKind
   | .emptyModel => .indexError
   | .firstConditional => .runtimeError
   | .fitLength | .missingMethod | .dataDim => .valueError
+  | .dataScalar | .dataFlat => .indexError
   | .unknownReference => .valueError
   | .referenceType => .typeError
   | .tooFewIntervals => .runtimeError
@@ -68,6 +70,9 @@ def Check.kind : Check → ErrKind
   | .limitSubscript => .typeError
   | .limitIndex => .indexError
   | .deltaStep | .deltaNegative => .leaf
+  | .limitEntry => .typeError
+  | .limitNonFinite => .leaf
+  | .nanDensity => .valueError
   | .unknownKwarg => .typeError
   | .nonFinite => .valueError
   | .notTwoDim => .notImplemented
@@ -262,7 +267,8 @@ def missingMethodCheck (d : Option FitDesc) : Option Check :=
 structure FitSpec where
   dims : List FitDim
   descs : Option (List (Option FitDesc))
-  dataDim : Nat
+  /-- `np.array(data).shape`: `[]` for a scalar, `[k]` for a flat sequence, `[rows, cols]` for a table, … -/
+  dataShape : List Nat
   deriving Repr, Inhabited
 
 def filledDescs (f : FitSpec) : List FitDesc :=
@@ -277,8 +283,17 @@ def checkDescs (f : FitSpec) : Except Err Unit :=
     if l.length ≠ f.dims.length then .error ⟨.fitLength, 0, 0⟩
     else firstFail (fun _ d => (missingMethodCheck d).map fun c => (c, 0)) 0 l
 
+/-- `data.shape[-1] != self.n_dim` (an `IndexError` for a 0-axis array: `()[-1]`), then the first
+pass of the loop evaluates `data[:, 0]` (dimension 0 is always unconditional) before any fit is
+called: an `IndexError` for a one-axis array.  The code has no check on the number of axes beyond
+that: an array with three or more axes whose LAST axis has length n_dim gets past the checks. -/
 def checkData (f : FitSpec) : Except Err Unit :=
-  if f.dataDim ≠ f.dims.length then .error ⟨.dataDim, 0, 0⟩ else .ok ()
+  match f.dataShape.getLast? with
+  | none => .error ⟨.dataScalar, 0, 0⟩
+  | some k =>
+    if k ≠ f.dims.length then .error ⟨.dataDim, 0, 0⟩
+    else if 0 < f.dims.length ∧ f.dataShape.length < 2 then .error ⟨.dataFlat, 0, 0⟩
+    else .ok ()
 
 def fitLoop (f : FitSpec) : Except Err Unit :=
   firstFail (fun _ x => (dimFitCheck x).map fun c => (c, 0)) 0 (f.dims.zip (filledDescs f))
@@ -290,8 +305,10 @@ def validateFit (f : FitSpec) : Except Err Unit :=
 /-! ### highest density contour grid -/
 
 inductive LimTag where
-  | tuple (len : Nat)
+  | tuple (len : Nat)   -- a sequence of `len` finite numbers (tuple, list, array)
   | scalar
+  | nonNumeric          -- two entries that are not numbers: (None, 4), "ab", ("0", "4")
+  | nonFinite           -- two numbers, one of them NaN or infinite
   deriving DecidableEq, Repr, Inhabited
 
 inductive DVal where
@@ -326,6 +343,8 @@ def defaultDeltaCheck (lim : LimTag) : Option Check :=
   match lim with
   | .scalar => some .limitSubscript
   | .tuple k => if k < 2 then some .limitIndex else none
+  | .nonNumeric => some .limitEntry   -- `None - 0`, `"b" - "a"`
+  | .nonFinite => none                -- the default step is NaN / inf; `np.arange` fails later
 
 def checkDeltas (g : GridSpec) : Except Err Unit :=
   match g.deltas with
@@ -344,6 +363,8 @@ def gridDeltas (g : GridSpec) : List DVal :=
 def cellCheck (x : LimTag × DVal) : Option Check :=
   match x.1 with
   | .scalar => some .limitTuple
+  | .nonNumeric => some .limitEntry      -- `min((None, 4))`, `"b" + delta`
+  | .nonFinite => some .limitNonFinite   -- inside numpy: `np.arange` with a NaN / infinite bound, or an axis of one cell
   | .tuple k =>
     if k ≠ 2 then some .limitTuple
     else match x.2 with
@@ -401,6 +422,12 @@ inductive PtTag where
 /-- `np.asarray_chkfinite(x)`: numpy does not say where the offending entry is -/
 def validatePoints (rows : List (List PtTag)) : Except Err Unit :=
   if rows.all (fun r => r.all (fun t => t = .finite)) then .ok () else .error ⟨.nonFinite, 0, 0⟩
+
+/-- the NaN tests of `HighestDensityContour._compute` (cell-averaged joint pdf) and of
+`cumsum_biggest_until`: a density table containing NaN (e.g. a model with a NaN parameter) is
+rejected with a `ValueError`, nothing is summed -/
+def validateDensity (hasNan : Bool) : Except Err Unit :=
+  if hasNan then .error ⟨.nanDensity, 0, 0⟩ else .ok ()
 
 def validateTwoD (nDim : Nat) : Except Err Unit :=
   if nDim ≠ 2 then .error ⟨.notTwoDim, 0, 0⟩ else .ok ()
